@@ -31,6 +31,24 @@ static void pstr(const char *k, const char *s)
 static void pw32(const char *k, unsigned long long v) { printf(",\"%s\":[%llu,%llu]", k, (v >> 16) & 0xffff, v & 0xffff); }
 static void pw64(unsigned long long v, int first) { printf("%s%llu,%llu,%llu,%llu", first ? "" : ",", v & 0xffff, (v >> 16) & 0xffff, (v >> 32) & 0xffff, (v >> 48) & 0xffff); }
 
+static void dump_fields(LHAFileHeader *h)
+{
+	printf(",\"level\":%u,\"method\":[%u,%u,%u,%u,%u],\"os\":%u,\"crc\":%u", h->header_level,
+	       (unsigned char) h->compress_method[0], (unsigned char) h->compress_method[1], (unsigned char) h->compress_method[2],
+	       (unsigned char) h->compress_method[3], (unsigned char) h->compress_method[4], h->os_type, h->crc);
+	pw32("packed", h->compressed_length); pw32("length", h->length); pw32("time", h->timestamp);
+	pstr("path", h->path); pstr("filename", h->filename); pstr("target", h->symlink_target);
+	pstr("user", h->unix_username); pstr("group", h->unix_group);
+	printf(",\"hasperms\":%s,\"hasids\":%s,\"hasccrc\":%s,\"haswin\":%s,\"hasos9\":%s",
+	       h->extra_flags & LHA_FILE_UNIX_PERMS ? "true" : "false", h->extra_flags & LHA_FILE_UNIX_UID_GID ? "true" : "false",
+	       h->extra_flags & LHA_FILE_COMMON_CRC ? "true" : "false", h->extra_flags & LHA_FILE_WINDOWS_TIMESTAMPS ? "true" : "false",
+	       h->extra_flags & LHA_FILE_OS9_PERMS ? "true" : "false");
+	printf(",\"perms\":%u,\"uid\":%u,\"gid\":%u,\"os9\":%u,\"ccrc\":%u,\"rawlen\":%zu,\"win\":[", h->unix_perms, h->unix_uid, h->unix_gid,
+	       h->os9_perms, h->common_crc, h->raw_data_len);
+	if (h->extra_flags & LHA_FILE_WINDOWS_TIMESTAMPS) { pw64(h->win_creation_time, 1); pw64(h->win_modification_time, 0); pw64(h->win_access_time, 0); }
+	printf("]");
+}
+
 int main(int argc, char **argv)
 {
 	static char line[1 << 22]; static uint8_t dummy[4096], cs[1 << 21]; size_t dl = 0;
@@ -38,6 +56,22 @@ int main(int argc, char **argv)
 	if (!f) return 2;
 	while (fgets(line, sizeof line, f)) {
 		if (!strncmp(line, "dummy ", 6)) { dl = unhex(line + 6, dummy); continue; }
+		if (!strncmp(line, "arch ", 5)) {
+			/* every header of an archive file, as the library returns them: one Arch line */
+			char path[4096]; FILE *af; int first = 1;
+			sscanf(line + 5, "%4095s", path);
+			af = fopen(path, "rb");
+			if (!af) { perror(path); return 2; }
+			free(buf); buf = malloc(1 << 24); blen = fread(buf, 1, 1 << 24, af); fclose(af); bpos = 0;
+			LHAInputStream *st = lha_input_stream_new(&cbt, NULL);
+			LHAReader *r = lha_reader_new(st);
+			LHAFileHeader *h;
+			printf("{\"e\":\"Arch\",\"members\":[");
+			while ((h = lha_reader_next_file(r)) != NULL) { printf("%s{\"ok\":true", first ? "" : ","); dump_fields(h); printf("}"); first = 0; }
+			printf("]}\n");
+			lha_reader_free(r); lha_input_stream_free(st);
+			continue;
+		}
 		if (strncmp(line, "case ", 5)) continue;
 		size_t cl = unhex(line + 5, cs);
 		free(buf); buf = malloc(dl + cl + 1); memcpy(buf, dummy, dl); memcpy(buf + dl, cs, cl); blen = dl + cl; bpos = 0;
@@ -50,20 +84,7 @@ int main(int argc, char **argv)
 		for (size_t i = 0; i < cl; i++) printf("%s%u", i ? "," : "", cs[i]);
 		printf("],\"ok\":%s", h ? "true" : "false");
 		if (h) {
-			printf(",\"level\":%u,\"method\":[%u,%u,%u,%u,%u],\"os\":%u,\"crc\":%u", h->header_level,
-			       (unsigned char) h->compress_method[0], (unsigned char) h->compress_method[1], (unsigned char) h->compress_method[2],
-			       (unsigned char) h->compress_method[3], (unsigned char) h->compress_method[4], h->os_type, h->crc);
-			pw32("packed", h->compressed_length); pw32("length", h->length); pw32("time", h->timestamp);
-			pstr("path", h->path); pstr("filename", h->filename); pstr("target", h->symlink_target);
-			pstr("user", h->unix_username); pstr("group", h->unix_group);
-			printf(",\"hasperms\":%s,\"hasids\":%s,\"hasccrc\":%s,\"haswin\":%s,\"hasos9\":%s",
-			       h->extra_flags & LHA_FILE_UNIX_PERMS ? "true" : "false", h->extra_flags & LHA_FILE_UNIX_UID_GID ? "true" : "false",
-			       h->extra_flags & LHA_FILE_COMMON_CRC ? "true" : "false", h->extra_flags & LHA_FILE_WINDOWS_TIMESTAMPS ? "true" : "false",
-			       h->extra_flags & LHA_FILE_OS9_PERMS ? "true" : "false");
-			printf(",\"perms\":%u,\"uid\":%u,\"gid\":%u,\"os9\":%u,\"ccrc\":%u,\"rawlen\":%zu,\"win\":[", h->unix_perms, h->unix_uid, h->unix_gid,
-			       h->os9_perms, h->common_crc, h->raw_data_len);
-			if (h->extra_flags & LHA_FILE_WINDOWS_TIMESTAMPS) { pw64(h->win_creation_time, 1); pw64(h->win_modification_time, 0); pw64(h->win_access_time, 0); }
-			printf("]");
+			dump_fields(h);
 			/* the first bytes of the member as the caller can read them (stored methods: the data) */
 			{ uint8_t d[8]; size_t n = lha_reader_read(r, d, sizeof d); printf(",\"data\":["); for (size_t i = 0; i < n; i++) printf("%s%u", i ? "," : "", d[i]); printf("]"); }
 		}
